@@ -15,7 +15,7 @@ func init() {
 		Title: "The metadata Pack returns describes the slug it wrote",
 		Rules: []func(*Checker){ruleC20Files, ruleC20Size, ruleC20Same, ruleC20HdrSize, ruleWritersClosed("C20.writers"), ruleBodyWritesAccounted("C20.bodywrites"), ruleFreshHeaderPerEntry("C20.freshheader"),
 			aliasRuleFiltered(ruleC12Errors, "C12.errors", "C20.errors", 2, func(o Oblig) bool {
-				return strings.Contains(o.Key, "(*slug.Packer).Pack/") && strings.Contains(o.Key, "Close")
+				return strings.Contains(o.Key, "(*slug.Packer).Pack/") || strings.Contains(o.Key, "(*slug.Packer).Pack$")
 			})},
 		NotDecided: []string{
 			"that archive/tar rejects a body whose length differs from header.Size (trusted library behaviour), which is what equates bytes copied with sizes recorded",
